@@ -352,3 +352,112 @@ pub fn fuzz_entry(target: &str, data: &[u8]) {
 		std::process::abort();
 	}
 }
+
+// ---- fixture-derived models: real recorder output (start blocks, metadata, gecko lists, event mix) with
+// generated windows, payload patterns, absences and rollbacks -------------------------------------
+
+fn fixture_bank() -> &'static Vec<(String, ModelGame)> {
+	use std::sync::OnceLock;
+	static BANK: OnceLock<Vec<(String, ModelGame)>> = OnceLock::new();
+	BANK.get_or_init(|| {
+		let mut v = Vec::new();
+		let dir = crate::selftest::fixture_dir();
+		let mut entries: Vec<_> = match std::fs::read_dir(&dir) {
+			Ok(d) => d.filter_map(|e| e.ok()).map(|e| e.path()).collect(),
+			Err(_) => return v,
+		};
+		entries.sort();
+		for p in entries {
+			let name = p.file_name().unwrap().to_string_lossy().to_string();
+			if !name.ends_with(".slp") || name == "corrupt.slp" || name == "unknown_event.slp" {
+				continue;
+			}
+			if std::fs::metadata(&p).map(|m| m.len()).unwrap_or(0) > 400_000 {
+				continue;
+			}
+			if let Ok(bytes) = std::fs::read(&p) {
+				if let Ok(raw) = crate::model::walk(&bytes) {
+					if let Ok(mut m) = crate::model::model_from_raw(&raw) {
+						// keep it light: at most the first 600 frames are candidates for windows
+						m.frames.truncate(600);
+						if m.frames.iter().all(|f| f.chars.iter().all(|c| c.as_ref().map_or(true, |c| !c.pre.is_empty() && !c.post.is_empty()))) {
+							v.push((name, m));
+						}
+					}
+				}
+			}
+		}
+		v
+	})
+}
+
+pub fn fixture_count() -> usize {
+	fixture_bank().len()
+}
+
+/// A well-formed model built from a real fixture: real start block / metadata / gecko list, a window of its
+/// frames renumbered from -123, with generated payload overwrites, absences and (>= 2.2) rollbacks.
+pub fn fixture_model(dna: &[u8]) -> Option<(String, ModelGame)> {
+	let bank = fixture_bank();
+	if bank.is_empty() {
+		return None;
+	}
+	let mut d = Dna::new(dna);
+	let (name, base) = &bank[d.below(bank.len())];
+	let v = base.v();
+	let n = 1 + d.below(24.min(base.frames.len().max(1)));
+	let a = d.below(base.frames.len().saturating_sub(n) + 1);
+	let mut m = base.clone();
+	m.frames = base.frames[a..(a + n).min(base.frames.len())].to_vec();
+	let old = !spec::gte(v, (2, 2));
+	let ns = m.slots().len();
+	let mut id = spec::FIRST_FRAME;
+	for (fi, f) in m.frames.iter_mut().enumerate() {
+		if fi > 0 {
+			if old {
+				id += 1;
+			} else {
+				match d.u8() {
+					0..=219 => id += 1,
+					220..=245 => id = (id - d.below(5) as i32).max(spec::FIRST_FRAME),
+					_ => id += 2,
+				}
+			}
+		}
+		f.id = id;
+		// absences (keep the recorder's own absences too)
+		if d.u8() >= 200 {
+			let s = d.below(ns);
+			if !(old && f.chars.iter().filter(|c| c.is_some()).count() <= 1) {
+				f.chars[s] = None;
+			}
+		}
+		// overwrite some payloads with generated patterns
+		if d.u8() >= 160 {
+			let pat = crate::gen::Pattern::from_byte(d.u8());
+			let seed = d.u32() as u64;
+			for (s, c) in f.chars.iter_mut().enumerate() {
+				if let Some(c) = c {
+					c.pre = crate::gen::payload(spec::Kind::Pre, v, seed ^ (s as u64 * 2 + 1), pat, 0);
+					c.post = crate::gen::payload(spec::Kind::Post, v, seed ^ (s as u64 * 2 + 2), pat, 0);
+				}
+			}
+			for (k, it) in f.items.iter_mut().enumerate() {
+				*it = crate::gen::payload(spec::Kind::Item, v, seed ^ (0x100 + k as u64), pat, 0);
+			}
+		}
+	}
+	match d.u8() {
+		0..=179 => {}
+		180..=219 => m.end = EndSpec::None,
+		_ => {
+			if let Some(b) = m.end.bytes().cloned() {
+				m.end = EndSpec::Two(b);
+			}
+		}
+	}
+	if d.u8() >= 230 {
+		m.metadata = None;
+	}
+	Some((name.clone(), m))
+}
